@@ -192,6 +192,13 @@ theorem yAxis_perp_heading (z0 z1 z2 c s : ℝ)
   unfold yAxis; rw [if_pos h]
   simp [dot3]; ring
 
+/-- thrust straight up: the y axis is the horizontal normal of the heading, (−s, c, 0) -/
+theorem yAxis_up (c s : ℝ) (hcs : c ^ 2 + s ^ 2 = 1) : yAxis 0 0 1 c s = ![-s, c, 0] := by
+  have hA : (1:ℝ) * s * (1 * s) + 1 * c * (1 * c) + (0 * s - 0 * c) * (0 * s - 0 * c) = 1 := by nlinarith [hcs]
+  unfold yAxis
+  rw [hA, Real.sqrt_one, if_pos (by norm_num)]
+  simp
+
 /-- the frame the controllers hand to the quaternion extraction is a proper rotation, whatever the force and heading -/
 theorem frame_yAxis_zAxis_isRot (T0 T1 T2 c s : ℝ) (hcs : c ^ 2 + s ^ 2 = 1) :
     IsRot (frame (yAxis (zAxis T0 T1 T2 0) (zAxis T0 T1 T2 1) (zAxis T0 T1 T2 2) c s) (zAxis T0 T1 T2)) := by
